@@ -350,7 +350,8 @@ fn generate(r: &mut Rng, n: usize, tier: &str) -> Vec<String> {
     // exactly 10 leased keys: the 10-entry sample of may_have_expired_keys still sees every entry
     out.push(format!("eng=file t0=1000|{};put,11,1,1;adv,2;cleanup;get,11", (1..=9).map(|i| format!("put,{},1,100", i)).collect::<Vec<_>>().join(";")));
     out.push("eng=file t0=1000|put,1,1,4611686018427387903;adv,5;cleanup;get,1".into());
-    out.push("eng=sample long=9 trials=5|".into());
+    out.push("eng=sample long=9 trials=3|".into());
+    out.push("eng=sample long=25 trials=4|".into());
     if tier == "thorough" {
         enumerate("file", &mut out);
     }
